@@ -11,6 +11,7 @@ use serde::{de::DeserializeOwned, Serialize};
 use serde_json::{json, Value};
 use std::panic;
 
+mod history;
 mod issue;
 mod keys;
 mod range;
@@ -161,6 +162,7 @@ fn main() {
             spok::mask(&mut out, thorough);
         }
         "cl_keys" => keys::run(&mut out, thorough),
+        "cl_history" => history::run(&mut out, thorough),
         f => {
             eprintln!("unknown family {}", f);
             std::process::exit(2);
